@@ -102,6 +102,40 @@ func c08Sequential(rep *verifrep.R, dir string, seed int64) {
 		}
 		rep.Case("")
 	}
+	// cache pressure: read more than the cache holds (eviction), then read everything again
+	ids := model.ids()
+	for pass := 0; pass < 2; pass++ {
+		for _, id := range ids {
+			if id == 0 {
+				continue
+			}
+			got, ok := o.Get(robust.Id{Id: id})
+			if !ok || !sameBatch(got, model.batches[id]) {
+				gid := uint64(0)
+				if len(got) > 0 {
+					gid = got[0].Id.Id
+				}
+				rep.Violation("C08", "get-mismatch", fmt.Sprintf("sequential, after %d batches went through the cache (pass %d): Get(%d) returned ok=%v batch %d", len(ids), pass, id, ok, gid), map[string]interface{}{"seed": seed})
+				return
+			}
+			rep.Case("")
+		}
+	}
+	// and follow the whole stream once more
+	x := uint64(0)
+	for {
+		want, ok := model.succ(x)
+		got := o.GetNext(cancelled, robust.Id{Id: x})
+		if !ok {
+			break
+		}
+		if len(got) == 0 || got[0].Id.Id != want || !sameBatch(got, model.batches[want]) {
+			rep.Violation("C08", "wrong-successor", fmt.Sprintf("sequential, after cache eviction: GetNext(%d) did not return batch %d", x, want), map[string]interface{}{"seed": seed})
+			break
+		}
+		x = want
+	}
+	rep.Obs("seq.cache-pressure-batches", len(ids))
 	rep.Case(fmt.Sprintf("seq|%d", seed))
 }
 
